@@ -94,7 +94,8 @@ def c03(tier, seed, case=None):
             'the 14 type codes, 0..5 records, per-record layout features the library never writes (M block absent, PointZ without M, '
             'null records inside a typed file, 0 parts / 0 points, empty and one-vertex parts, arbitrary stored boxes and record '
             'numbers, bytes after the declared length), all float pools incl. raw random bit patterns; the library decodes it '
-            '(read, iter_shapes, read_as / iter_shapes_as when homogeneous) and the dumps are compared with the model. distinct = '
+            '(read, iter_shapes, read_as / iter_shapes_as when homogeneous; on cursors and through read_shapes / from_path / read_shapes_as on '
+            'the file itself) and the dumps are compared with the model. distinct = '
             '(type code, feature set, part counts); non-trivial = every file with >= 1 record',
             ['shpref.py encodes the whitepaper layouts correctly; it is the same module whose decoder validates the writer in C02 (each direction checks the other)'])
     per = 300 if tier == 'quick' else 5000
@@ -107,7 +108,8 @@ def c03(tier, seed, case=None):
         r = run_engine('C03', 'decode', prof, tier, seed, opts={'dir': gen_dir}, case=case, tag='decode-' + prof)
         v.add_run(r)
         counters, viols, samples, distinct, feats = check_c03.check(gen_dir, r['_out'], only=case)
-        guards = {'files compared': (counters['files'], 1 if case else n)}
+        guards = {'files compared': (counters['files'], 1 if case else n),
+                  'files also read through the path-based constructors': (counters.get('files_also_read_by_path', 0), 1 if case else n)}
         for f in REQUIRED_C03_FEATURES:
             guards['layout feature observed: ' + f] = (feats.get(f, 0), 1 if case else 20)
         guards['ring roles checked on exact-pool rings'] = (counters['role_checks_exact_pool'], 0 if case else 20)
@@ -269,7 +271,8 @@ def c10(tier, seed, case=None):
     v = _mk('C10', tier, seed, 'exploration',
             'ALL 13 x 12 ordered pairs of distinct types (first type, offered type) x ALL words of length <= %d over {write T, write U, '
             'finalize} in which some write is rejected, through ShapeWriter (shp+shx) and through the complete Writer (shp+shx+dbf; '
-            'alphabet without finalize); monitor: error fields, zero operations on any destination during the epoch of a rejected call, '
+            'alphabet without finalize), each history also ended by the consuming bulk route (write_shapes / write_shapes_and_records) '
+            'offered the foreign type; monitor: error fields, zero operations on any destination during the epoch of a rejected call, '
             'final bytes equal to the same history with the rejected calls deleted (dbf date masked). distinct = (T, U, writer, word); '
             'all non-trivial' % n, exhaustive=True)
     for prof in _profiles(tier):
@@ -338,7 +341,8 @@ def c14(tier, seed, case=None):
             'one case = a .shp laid out by the reference encoder with n = 1..%d records in one physical permutation (ALL permutations '
             'for every n) x filler pattern {none, everywhere, random; zero bytes, random bytes, bytes that look like records} x 6 '
             'record types, header length covering the whole file, plus a .shx in logical order; the library reads it with the index '
-            '(iteration, read_nth_shape for every i and two past the end, shape_count) and the dumps are compared with the model in '
+            '(iteration, read_nth_shape for every i and two past the end, shape_count; iteration after a random access and after a partial '
+            'iteration + random access on the same reader; ShapeReader::from_path on the pair) and the dumps are compared with the model in '
             'index order; the instrumented source counts the seeks. distinct = (type, permutation, filler pattern); non-trivial = all' % max_n,
             ['shpref.py encodes records correctly (cross-checked in C02/C03)'], exhaustive=True)
     gen_dir = os.path.join(OUT, 'C14', tier, 'gen')
@@ -351,7 +355,8 @@ def c14(tier, seed, case=None):
         counters, viols, samples, distinct = check_c14.check(gen_dir, r['_out'], only=case)
         v.add_offline('check_c14.index-order(%s)' % prof, counters['files'], distinct, samples, viols, counters,
                       guards={'files compared': (counters['files'], 1 if case else n),
-                              'files whose indexed iteration had to seek': (counters['files_where_iteration_had_to_seek'], 0 if case else 50)})
+                              'files whose indexed iteration had to seek': (counters['files_where_iteration_had_to_seek'], 0 if case else 50),
+                              'interleaved / path iterations compared': (counters.get('interleaved_or_path_iterations', 0), 0 if case else n)})
         viols_any = viols_any or bool(viols)
     v.extra['exhaustive_scope'] = 'all permutations of the physical order for every n <= %d; filler contents and record geometry are sampled' % max_n
     if not viols_any:
@@ -406,7 +411,8 @@ def c18(tier, seed, case=None):
 def c19(tier, seed, case=None):
     v = _mk('C19', tier, seed, 'exploration',
             'all 2^32 codes through ShapeType::from and through Header::read_from on a header carrying the code (both tiers); '
-            'record-level reads for a band around 0, all one-bit neighbours of the 14 codes and random codes; the 14 table rows '
+            'record-level reads (generic iteration, typed iteration and read_as with a rotating concrete type) for a band around 0, all '
+            'one-bit neighbours of the 14 codes and random codes; the 14 table rows '
             'for predicates and display names. distinct_nontrivial = codes that are valid, one bit away from a valid code, of '
             'magnitude <= 64 or next to i32::MIN/MAX (counted during the sweep) + the 14 table rows',
             exhaustive=True)
